@@ -40,6 +40,9 @@ def get_angle_spec_from_float(angle: float, tol: float = 1e-4) -> List[Tuple[int
     """
     angle %= 2 * np.pi
     rest = angle / np.pi
+    if rest >= 2:
+        # float `%` returns the modulus itself for tiny negative angles: a full turn is no rotation
+        rest -= 2
 
     # Max value of `n`
     n_max = 2**IMMEDIATE_BITS - 1
